@@ -153,7 +153,8 @@ func combinePorts(as string, bs string) (string, error) {
 	bBitset := parsePorts(bs)
 
 	aBitset.InPlaceIntersection(bBitset)
-	if aBitset.Len() == 0 {
+	if aBitset.None() {
+		// No port in common.
 		return "", policysets.ErrRuleIsNoOp
 	}
 
@@ -184,7 +185,8 @@ func combinePorts(as string, bs string) (string, error) {
 }
 
 func parsePorts(portsStr string) *bitset.BitSet {
-	setOfPorts := bitset.New(2 ^ 16 + 1)
+	// One more bit than there are ports so that the bit after the highest port is always clear.
+	setOfPorts := bitset.New(1<<16 + 1)
 	for p := range strings.SplitSeq(portsStr, ",") {
 		if strings.Contains(p, "-") {
 			// Range
